@@ -213,40 +213,65 @@ Fixpoint upd_nth {A} (l : list A) (i : nat) (f : A -> A) : list A :=
   | x :: r, O => f x :: r
   | x :: r, S j => x :: upd_nth r j f
   end.
+(* DIALLED vs ACCEPTED connections.  A connection the proxy ACCEPTED is read by the TCP transport of the listen
+   entry (listener address, TCP port); a connection the proxy DIALLED (towards a TCP next hop / backend) is read
+   by that connection's own transport, whose local end is the listener address with an OS-chosen port.  For a
+   request that arrives on a dialled connection
+     - no Route entry and no Request-URI "designates the receiving listener" by address and port (the proxy
+       compares with the port of the connection's local end): C03 / C13 / C06 below;
+     - the hosts learned from it are reachable through that connection's transport, which the proxy names
+       "SIP/2.0/TCP <listener address>" WITHOUT a port (own Record-Route: "<sip:<listener address>;lr>"): C06.
+   The record types are left as they are: the judge writes the listen entry of a dialled connection (in
+   js_conns) and of a host learned over one (in js_learned, with TCP = true) as  entry + dial_mark.
+   (dial_mark bounds the number of listen entries a configuration may have for the reading to be unambiguous;
+   natural numbers are unary in the extracted judge, hence a small mark.) *)
+Definition dial_mark : nat := 4096.
+Definition unmark (li : nat) : nat := if Nat.leb dial_mark li then (li - dial_mark)%nat else li.
+Definition conn_dialled (st : jstate) (c : nat) : bool :=
+  match find (fun x => Nat.eqb (fst x) c) (js_conns st) with
+  | Some (_, (li, _, _)) => Nat.leb dial_mark li
+  | None => false
+  end.
 Definition j_input (st : jstate) (ev : event) : option jin :=
   match ev with
   | EvUdp li src sport data => Some {| ji_li := li; ji_tcp := false; ji_conn := 0; ji_src := src; ji_sport := sport; ji_data := data |}
   | EvTcpData c data =>
       match find (fun x => Nat.eqb (fst x) c) (js_conns st) with
-      | Some (_, (li, ip, port)) => Some {| ji_li := li; ji_tcp := true; ji_conn := c; ji_src := ip; ji_sport := port; ji_data := data |}
+      | Some (_, (li, ip, port)) =>
+          Some {| ji_li := unmark li; ji_tcp := true; ji_conn := c; ji_src := ip; ji_sport := port; ji_data := data |}
       | None => None
       end
   | _ => None
   end.
+(* the input arrived on a connection the proxy had dialled *)
+Definition ji_dialled (st : jstate) (i : jin) : bool := ji_tcp i && conn_dialled st (ji_conn i).
 Definition count_dials (outs : list (bytes * bytes)) : nat := List.length (filter is_dial outs).
 
-(* learning, as the property C06 describes it: source address and every Via host of a request *)
+(* learning, as the property C06 describes it: source address and every Via host of a request (over a dialled
+   connection: with the mark) *)
 Definition j_learn (st : jstate) (i : jin) (m : jmsg) : list (bytes * (nat * bool)) :=
   if j_is_response m then js_learned st
   else
     let hosts := ji_src i :: flat_map (fun e => match j_via e with Some v => [jv_host v] | None => [] end)
                                       (j_flat_via (jm_headers m)) in
-    fold_left (fun l h => aset h (ji_li i, ji_tcp i) l) hosts (js_learned st).
+    let li := if ji_dialled st i then (ji_li i + dial_mark)%nat else ji_li i in
+    fold_left (fun l h => aset h (li, ji_tcp i) l) hosts (js_learned st).
 
 (* a connection the proxy opened: label "dial:<ip>:<port>", payload = the connection's id; it
-   belongs to the listen entry whose event caused it and its peer is the dialled address *)
+   belongs to the listen entry whose event caused it (recorded with the mark) and its peer is the dialled address *)
 Definition dialled (li : nat) (outs : list (bytes * bytes)) : list (nat * (nat * bytes * Z)) :=
   flat_map (fun o => if is_dial o then
                        let a := skipn 5 (fst o) in
                        match last_index_byte ":"%char a, atoi (snd o) with
-                       | Some p, Some id => [(Z.to_nat id, (li, firstn p a, atoi_val (skipn (S p) a)))]
+                       | Some p, Some id => [(Z.to_nat id, ((li + dial_mark)%nat, firstn p a, atoi_val (skipn (S p) a)))]
                        | _, _ => []
                        end
                      else []) outs.
 Definition js_step (st : jstate) (ev : event) (outs : list (bytes * bytes)) : jstate :=
   let li0 := match ev with
              | EvUdp li _ _ _ => li
-             | EvTcpData c _ => match find (fun x => Nat.eqb (fst x) c) (js_conns st) with Some (_, (li, _, _)) => li | None => O end
+             | EvTcpData c _ => match find (fun x => Nat.eqb (fst x) c) (js_conns st) with
+                                | Some (_, (li, _, _)) => unmark li | None => O end
              | _ => O end in
   let base (bk : list (list bytes)) (cs : list (nat * (nat * bytes * Z))) (nc : nat) (ln : list (bytes * (nat * bool))) :=
     {| js_backends := bk; js_conns := cs ++ dialled li0 outs; js_next_conn := nc + count_dials outs; js_learned := ln;
@@ -510,6 +535,44 @@ Definition j_choose (c : cfg) (lc : listen_cfg) (tcp : bool) (q : jreq) : jhop :
       | Some None => if j_service_match c lc tcp (jq_ruri q) then HBackend else HDrop
       end
   end.
+(* The same for a request that arrived on a connection the proxy had DIALLED ([d] = true): it is received by that
+   connection's own transport, whose port is not the listener's, so no Route entry is the proxy's own and the
+   Request-URI does not name the receiving transport by address and port (the names of the service still count).
+   With [d] = false these are j_own / j_service_match / j_choose. *)
+Definition j_own_at (d : bool) (c : cfg) (lc : listen_cfg) (tcp : bool) (e : bytes) : bool :=
+  negb d && j_own c lc tcp e.
+Definition j_service_match_at (d : bool) (c : cfg) (lc : listen_cfg) (tcp : bool) (ruri : bytes) : bool :=
+  let n := new_my_name (c_name c) in
+  let u := j_uri ruri in
+  if ju_sip u then
+    (negb d && (beq (ju_host u) (lc_addr lc) && Z.eqb (ju_eff_port u) (listener_port lc tcp))) || match_sip_uri n (ju_user u) (ju_host u)
+  else match_absolute_uri n ruri.
+Definition j_choose_d (d : bool) (c : cfg) (lc : listen_cfg) (tcp : bool) (q : jreq) : jhop :=
+  let remaining := match jq_routes q with
+                   | e :: r => if j_own_at d c lc tcp e then r else e :: r
+                   | [] => [] end in
+  match remaining with
+  | e :: _ =>
+      let u := j_entry_uri e in
+      if ju_sip u then HHop (j_dest c (ju_transport u) (ju_host u) (ju_eff_port u)) else HOut
+  | [] =>
+      let static :=
+        match jq_to q with
+        | Some t => let u := j_entry_uri t in
+                    if ju_sip u then
+                      match find_route (route_table_of c) (ju_host u) with
+                      | Some it => Some (Some (j_dest c (ri_proto it) (ri_host it) (ri_port it)))
+                      | None => Some None
+                      end
+                    else Some None
+        | None => Some None
+        end in
+      match static with
+      | None => HOut
+      | Some (Some d') => HHop d'
+      | Some None => if j_service_match_at d c lc tcp (jq_ruri q) then HBackend else HDrop
+      end
+  end.
 Definition backend_labels (l : list bytes) : list bytes := map (fun a => s2b "udp:" ++ a) l.
 (* reason codes: 1 more than one destination, 2 wrong destination / relayed although dropped,
    3 dropped although a hop is prescribed *)
@@ -524,7 +587,7 @@ Definition judge_C03_event (pc : proxy_case) (st : jstate) (ev : event) (outs : 
             | Some q =>
                 let ms := msgs_of outs in
                 if Nat.ltb 1 (List.length ms) then 1%nat
-                else match j_choose c lc (ji_tcp i) q with
+                else match j_choose_d (ji_dialled st i) c lc (ji_tcp i) q with
                      | HOut => O
                      | HDrop => match ms with [] => O | _ => 2%nat end
                      | HHop d => if dest_ok pc st d ms then O else match ms with [] => 3%nat | _ => 2%nat end
@@ -557,7 +620,7 @@ Definition judge_C13_event (pc : proxy_case) (st : jstate) (ev : event) (outs : 
             match j_request m with
             | Some q =>
                 if all_sip (jq_routes q) then
-                  let own := match jq_routes q with e :: _ => j_own c lc (ji_tcp i) e | [] => false end in
+                  let own := match jq_routes q with e :: _ => j_own_at (ji_dialled st i) c lc (ji_tcp i) e | [] => false end in
                   let after_own := if own then tl (jq_routes q) else jq_routes q in
                   let expected := match after_own with
                                   | _ :: r => if c_keep_next_hop c then after_own else r
@@ -639,6 +702,18 @@ Definition jtrans_of (c : cfg) (li : nat) (tcp : bool) : option (bytes * bytes *
   | Some lc => Some (if tcp then s2b "TCP" else s2b "UDP", lc_addr lc, listener_port lc tcp)
   | None => None
   end.
+(* the identity of the transport a learned entry stands for.  An entry with the mark (learned from a request that
+   arrived on a connection THE PROXY HAD DIALLED, e.g. a TCP next hop that sent a request back on it) stands for
+   that connection's own transport: the proxy names it "SIP/2.0/TCP <listener address>" WITHOUT a port (the
+   OS-chosen local port is not written; Proxy.tcp_client_send: cn_from has t_port 0) and its own Record-Route
+   entry is "<sip:<listener address>;lr>".  As in the model (stransport, t_port = 0) port 0 stands for "no port". *)
+Definition jident_of (c : cfg) (li : nat) (tcp : bool) : option (bytes * bytes * Z) :=
+  if (tcp && Nat.leb dial_mark li)%bool then
+    match nth_opt (c_listens c) (li - dial_mark)%nat with
+    | Some lc => Some (s2b "TCP", lc_addr lc, 0%Z)
+    | None => None
+    end
+  else jtrans_of c li tcp.
 Definition first_of (lc : listen_cfg) : bytes * bytes * Z :=
   if Z.ltb 0 (lc_udp lc) then (s2b "UDP", lc_addr lc, lc_udp lc) else (s2b "TCP", lc_addr lc, lc_tcp lc).
 Definition judge_C06_event (pc : proxy_case) (st : jstate) (ev : event) (outs : list (bytes * bytes)) (closed : list nat) : nat :=
@@ -652,13 +727,16 @@ Definition judge_C06_event (pc : proxy_case) (st : jstate) (ev : event) (outs : 
             | Some q, Some ivs =>
                 (* the table as it is AFTER this request has been learned from *)
                 let learned := j_learn st i m in
-                let hop := j_choose c lc (ji_tcp i) q in
-                (* which listener identity, if any, the proxy must put on top *)
+                let hop := j_choose_d (ji_dialled st i) c lc (ji_tcp i) q in
+                (* which identity, if any, the proxy must put on top: (protocol, address, port); port 0 = the
+                   port-less form (jident_of: a host learned over a connection the proxy had dialled) *)
                 let ident :=
                   match hop with
                   | HBackend => Some (first_of lc)
                   | HHop _ =>
-                      let remaining := match jq_routes q with e :: r => if j_own c lc (ji_tcp i) e then r else e :: r | [] => [] end in
+                      let remaining := match jq_routes q with
+                                       | e :: r => if j_own_at (ji_dialled st i) c lc (ji_tcp i) e then r else e :: r
+                                       | [] => [] end in
                       let host := match remaining with
                                   | e :: _ => Some (ju_host (j_entry_uri e))
                                   | [] => match jq_to q with
@@ -668,7 +746,7 @@ Definition judge_C06_event (pc : proxy_case) (st : jstate) (ev : event) (outs : 
                                   end in
                       match host with
                       | Some h => match alookup h learned with
-                                  | Some (li', tcp') => jtrans_of c li' tcp'
+                                  | Some (li', tcp') => jident_of c li' tcp'
                                   | None => None end
                       | None => None
                       end
@@ -690,14 +768,17 @@ Definition judge_C06_event (pc : proxy_case) (st : jstate) (ev : event) (outs : 
                               match ovs with
                               | top :: rest =>
                                   if negb (beq (jv_transport top) proto && beq (jv_host top) addr &&
-                                           match jv_port top with Some p => Z.eqb p port | None => false end &&
+                                           match jv_port top with
+                                           | Some p => negb (Z.eqb port 0) && Z.eqb p port
+                                           | None => Z.eqb port 0 end &&
                                            Nat.eqb (List.length rest) (List.length ivs) &&
                                            forallb (fun '(a, b) => beq (jv_host a) (jv_host b) && beq (jv_proto a) (jv_proto b))
                                                    (combine rest ivs))%bool then 1%nat
                                   else if negb (match j_get (s2b "branch") (jv_params top) with
                                                 | Some b => beq b (branch_of (js_event st)) | None => false end) then 3%nat
                                   else
-                                    let own_rr := s2b "<sip:" ++ addr ++ ":"%char :: itoa port ++ s2b ";lr>" in
+                                    let own_rr := if Z.eqb port 0 then s2b "<sip:" ++ addr ++ s2b ";lr>"
+                                                  else s2b "<sip:" ++ addr ++ ":"%char :: itoa port ++ s2b ";lr>" in
                                     let want_rr := if (match in_rr with [] => false | _ => true end || must)%bool
                                                    then own_rr :: in_rr else in_rr in
                                     if (Nat.eqb (List.length out_rr) (List.length want_rr) &&
